@@ -41,9 +41,12 @@ class C18(common.Spec):
                     delivered.append((loop.vt_us, etype, dict(data), next(seqno)))
             dest = Dest('dest')
             src = edzed.Input('src', initdef=0)
+            # an event type equal to the configured one but not the same string object (a type
+            # that comes from a configuration file or a message)
+            fresh = lambda s: ''.join(list(s))
             interval = interval_us / 1e6
             if case['implicit']:
-                ev = edzed.Event(dest, 'ev', repeat=interval, count=case['count'])
+                ev = edzed.Event(dest, fresh('ev'), repeat=interval, count=case['count'])
                 rblocks = [b for b in circuit.getblocks(edzed.Repeat)]
             else:
                 r_last = edzed.Repeat('r_last', dest=dest, etype='ev', interval=interval, count=case['count'])
@@ -52,7 +55,7 @@ class C18(common.Spec):
                     r_first = edzed.Repeat('r_first', dest=r_last, etype='ev',
                                            interval=case['interval2_us'] / 1e6, count=case['count2'])
                     rblocks = [r_first, r_last]
-                ev = edzed.Event(rblocks[0], 'ev')
+                ev = edzed.Event(rblocks[0], fresh('ev'))
             # what every Repeat block receives (wrapper around the instance's event entry point)
             inputs = {b.name: [] for b in rblocks}
             for b in rblocks:
@@ -75,7 +78,7 @@ class C18(common.Spec):
                 try:
                     if etype == 'ev' and tag % 5 == 4:
                         # delivered directly, without a 'source' item
-                        rblocks[0].event('ev', tag=tag, extra='x%d' % tag)
+                        rblocks[0].event(fresh('ev'), tag=tag, extra='x%d' % tag)
                     elif etype == 'ev':
                         if tag % 3 == 0:
                             # an event that already carries an (unrelated) orig_source item
